@@ -604,17 +604,27 @@ func (s *aggSession) opScan(i int, op plan.Op) {
 				continue
 			}
 			if f.Ready {
+				if catNeedsCorrelation(f.Cat) {
+					s.env.Violate("c07-correlated-not-exported", "", "op %d: key %d has been correlated (both sides seen) and is past its deadline by %v, but was not handed to the callback (%s)", i, k, now.Sub(f.minDeadline()), f)
+				}
 				s.env.Violate("c06-missed-expiry", "", "op %d: key %d is past its deadline by %v and ready, but was not handed to the callback (%s)", i, k, now.Sub(f.minDeadline()), f)
 				continue
 			}
 			// not ready: retried a bounded number of times, then dropped without export
 			f.Retries++
 			s.env.Count("probe.not_ready_retry", 1)
+			held, scheduled := s.heldScheduled(k)
 			if f.Retries > s.model.MaxRetries {
 				delete(s.model.Flows, k)
 				s.env.Count("probe.not_ready_dropped", 1)
+				if held {
+					s.env.Violate("c07-not-dropped-after-retries", "", "op %d: key %d is still uncorrelated after %d expiries (MaxRetries %d) and must be dropped, but it is still held", i, k, f.Retries, s.model.MaxRetries)
+				}
 			} else {
 				f.Active, f.Inactive = now.Add(s.model.Active), now.Add(s.model.Inactive)
+				if !held || !scheduled {
+					s.env.Violate("c07-retry-not-rescheduled", "", "op %d: key %d is uncorrelated at its deadline (retry %d of %d): it must stay held and be scheduled for another try, but held=%v scheduled=%v", i, k, f.Retries, s.model.MaxRetries, held, scheduled)
+				}
 			}
 		}
 		for _, k := range exact {
@@ -636,6 +646,18 @@ func (s *aggSession) opScan(i int, op plan.Op) {
 	s.env.Count("agg.scans", 1)
 	s.env.Count("agg.exports", int64(len(calls)))
 	s.env.Logf("op %d scan calls=%d err=%v", i, len(calls), err != nil)
+}
+
+// heldScheduled reports whether key k is in the map and whether it has a live queue entry.
+func (s *aggSession) heldScheduled(k int) (held, scheduled bool) {
+	fk := aggKeyOf(k, s.keyV6[k])
+	_, mapItems := s.ap.VerifSnapshot()
+	for _, it := range mapItems {
+		if it.Key == fk {
+			return true, it.ItemMatch
+		}
+	}
+	return false, false
 }
 
 // resyncFuzzy drops the fuzzy mark where the implementation's state can be read back.
